@@ -30,11 +30,13 @@ CLAIMED["C13"] = dict(engine="seqx", technique="explicit-state breadth-first sea
          "concat/subrange/map/copy_region (every offset and length, including out-of-range), de-duplicated on the canonical region list, and each is checked for size, apply tiling, map bytes, "
          "copy_region containment and ASan cleanliness; handles of small terms are released in every order with destructor-exactly-once and not-before-last-release checks.",
     design_ref="DESIGN.md §5 C13", note=SEQ)
-CLAIMED["C18"] = dict(engine="seqx", technique="exhaustive enumeration of the attribute table (all tuples x all constructor orders, closure under constructor application) and of the dispatch_get_global_queue identifier/flag space against a table model",
+CLAIMED["C18"] = dict(engine="seqx+dsched", technique="exhaustive enumeration of the attribute table (all tuples x all constructor orders, closure under constructor application) and of the dispatch_get_global_queue identifier/flag space against a table model",
     text="Every one of the 4032 attribute tuples is built through every order of the constructors, must intern to one pointer, be injective, and the created queue must report label, QoS class "
          "(platform clamp only for unsupported classes), relative priority; concurrency and initial inactivity are observed behaviourally on 12 representatives. dispatch_get_global_queue is called "
-         "on the full cross product of identifiers (all 16-bit values, QoS constants and neighbours, wide values) and flags: defined ids map to the documented class's queue (by label and pointer identity), others to NULL.",
-    design_ref="DESIGN.md §5 C18", note=SEQ + " The queue-specific-data / dispatch_assert_queue half of C18 is decided by dsched tasks of the same check when listed in the evidence.")
+         "on the full cross product of identifiers (all 16-bit values, QoS constants and neighbours, wide values) and flags: defined ids map to the documented class's queue (by label and pointer identity), others to NULL. "
+         "The queue-specific-data / assert half runs 406 small programs (5 hierarchy shapes x every key placement x 7 submission paths incl. sync through levels, redirected items of concurrent queues, apply, async_and_wait, block objects) "
+         "under the scheduler: dispatch_get_specific = nearest level's value, dispatch_queue_get_specific per level, asserts that must hold return, asserts that must fail trap (child exit status).",
+    design_ref="DESIGN.md §5 C18", note=SEQ + " " + SC)
 
 CLAIMED["C20"] = dict(engine="seqx", technique="bounded exhaustive input enumeration: every byte string up to a length bound over a byte-class alphabet x every fragmentation x every format pair, on the real transforms under ASan against reference codecs",
     text="Every byte string up to the bound, in every fragmentation into separately allocated regions (so ASan sees each region edge), is pushed through every accepted format pair; oracles: "
